@@ -373,6 +373,13 @@ class World:
                 h.state = "dropped"
         self.add_object(rid, st.get("wc", False))
 
+    def st_threading(self, st):
+        """enable_multithreading() / disable_multithreading() on every JSON class (a process-wide configuration switch)."""
+        for fam in self.ns.json_families:
+            for k in ("d", "l"):
+                c = self.ns.families[fam][k]
+                (c.enable_multithreading if st["on"] else c.disable_multithreading)()
+
     def st_leftover(self, st):
         """A stray temporary file next to the resource, as an earlier save that crashed between writing its temp file and
         renaming it (or a foreign tool) leaves behind.  No read may touch it, adopt it or create the resource from it."""
